@@ -6,17 +6,17 @@ ALL = ["C%02d" % i for i in range(1, 21)]
 
 CHECKS = {
  "C01": dict(
-   engine="E-prod bounded product enumerator (mc/src/c01.rs, aead.rs)", cat="exploration", ref="DESIGN.md §3 C01",
+   engine="E-prod bounded product enumerator (mc/src/c01.rs, aead.rs; nightly build so heap/locked container forms are included)", cat="exploration", ref="DESIGN.md §3 C01",
    technique="bounded exhaustive enumeration of the structural input space (every encrypt/open form x container x key/nonce alphabet x every message length up to the bound x content class), each case executed on the real code and compared byte-for-byte with libsodium",
-   text="Every cell of the product forms x key sets x lengths 0..=600 (+page/KiB boundaries; thorough 0..=4100 + up to 1 MiB) x 4 contents is encrypted by dryoc and libsodium and compared; every open form opens every libsodium ciphertext; libsodium opens dryoc's; sealed boxes are compared exactly under a pinned ephemeral key and cross-opened with the real RNG.",
+   text="Every cell of the product 30 encrypt forms / 29 open forms (classic, object API with stack, Vec, heap and locked containers, precomputed incl. locked precalculation, sealed) x key sets x lengths 0..=1500 (+page/KiB boundaries; thorough 0..=4100 + up to 1 MiB; locked forms on a stated reduced grid) x 4 contents is encrypted by dryoc and libsodium and compared; every open form opens every libsodium ciphertext; libsodium opens dryoc's; sealed boxes are compared exactly under a pinned ephemeral key and cross-opened with the real RNG.",
    note="Trusted: libsodium 1.0.18; RNG seam H3. Byte values outside the alphabets are not covered (the ciphers are third-party crates; dryoc's own logic is length/offset/plumbing, covered completely up to the bound)."),
  "C02": dict(
-   engine="E-fault single-fault enumerator (mc/src/c02.rs)", cat="fault_enumeration", ref="DESIGN.md §3 C02",
+   engine="E-fault single-fault enumerator (mc/src/c02.rs; nightly build)", cat="fault_enumeration", ref="DESIGN.md §3 C02",
    technique="exhaustive single-fault enumeration: every bit flip of every wire/nonce/key/header/AD component, every truncation, a stated extension family, for every base length, through every open form; verdict cross-checked with libsodium",
-   text="For each base case (4 families x lengths 0..=130 (300 thorough)) every member of the fault family is applied once and given to all open forms (21 AEAD + 2 stream); the control must be accepted with the original message and every fault rejected with Err (panic = violation).",
+   text="For each base case (4 families x lengths 0..=160 (400 thorough), plus long messages 1 KiB..16 KiB (256 KiB thorough) with a structural fault family) every member of the fault family is applied once and given to all open forms (29 AEAD incl. heap/locked containers + 2 stream); the control must be accepted with the original message and every fault rejected with Err (panic = violation).",
    note="Trusted: libsodium's verdict on the same faulty input guards the harness. Box pk/sk bits are not flipped (clamped bits are no-ops); 2^-128 residual for key flips."),
  "C17": dict(
-   engine="E-fault single-fault enumerator with buffer oracle (mc/src/c02.rs, mode leak)", cat="fault_enumeration", ref="DESIGN.md §3 C17",
+   engine="E-fault single-fault enumerator with buffer oracle (mc/src/c02.rs, mode leak; nightly build)", cat="fault_enumeration", ref="DESIGN.md §3 C17",
    technique="the C02 fault enumeration with a different oracle: after every failed open the caller-owned message buffer (sentinel-prefilled, or the submitted ciphertext for in-place forms) and the stream tag variable must be unchanged or all zero",
    text="Same executions as C02 (every fault x every form); buffer and tag contents before/after each failing call are compared byte by byte.",
    note="Object-API forms own their buffers and can only return Err (checked as 'err-no-buffer')."),
@@ -26,20 +26,20 @@ CHECKS = {
    text="Every history over a ~31-action protocol alphabet (push with 2 lengths x AD x 4 tags, one- and two-sided rekeys, in-order delivery, 12 kinds of out-of-position/forged delivery) from 12 initial states (incl. counters at 0xfffffffe/0xffffffff) is executed on the real code up to depth 6 (quick) / deepest bound completed (thorough); every transition compares ciphertext bytes, both raw states and accept/reject verdict with libsodium and with a pre-state reference model; then every (state class, mlen, adlen, tag byte) cell is pushed and pulled once.",
    note="Trusted: libsodium 1.0.18 as reference; hook H1 installs raw (key, nonce) states; histories beyond the depth bound and byte values outside the alphabets are not covered."),
  "C04": dict(
-   engine="E-prod + O-total (mc/src/c04.rs): child processes, catch_unwind, counting allocator", cat="exploration", ref="DESIGN.md §3 C04",
+   engine="E-prod + O-total (mc/src/c04.rs; nightly build): child processes, catch_unwind, counting allocator", cat="exploration", ref="DESIGN.md §3 C04",
    technique="bounded exhaustive enumeration of untrusted inputs by length and structural class for every consumer (every length x 5 content classes, every stream tag byte, a full grammar product of password-hash strings plus structural mutants), each call executed in a child process under catch_unwind with a counting allocator",
-   text="34 byte-string consumers x every length up to 2x overhead + 64 (+256) x 5 classes; 256 tag bytes x 3 lengths x 4 pull forms; ~243k password-hash strings; oracle: returns Ok or Err, no unwind/abort/signal, no single allocation above 16 MiB + 8x input.",
+   text="41 byte-string consumers (incl. heap/locked container parsers) x every length up to 2x overhead + 64 (+256) x 5 classes; 256 tag bytes x 3 lengths x 4 pull forms; ~243k password-hash strings; oracle: returns Ok or Err, no unwind/abort/signal, no single allocation above 16 MiB + 8x input.",
    note="Contents within a length are represented by five classes; overflow checks are enabled in the harness build so wrapped arithmetic panics."),
  "C05": dict(
    engine="E-prod bounded product enumerator (mc/src/c05.rs)", cat="exploration", ref="DESIGN.md §3 C05",
    technique="bounded exhaustive enumeration: full product of a structured scalar alphabet x a structured point-encoding alphabet (complete integer intervals around every boundary, complete low-order table), each cell through dryoc and libsodium X25519; plus all ordered honest pairs for DH/kx",
    text="~160 scalars x ~900 (thorough ~10k) point encodings incl. every integer u in [0,512), around p, 2^255, 2^256 and the complete low-order table; base-point multiplication, DH commutativity, box precomputation, kx session keys (classic + object API) against libsodium; kx must refuse every low-order peer.",
-   note="Trusted: libsodium ref10 X25519. The 2^512 input space is represented by the stated structural classes."),
+   note="Trusted: two references — libsodium ref10 X25519 in-process and a pure-Python RFC 7748 ladder (ref/curve_check.py) over a dumped sub-product of ~8k cells. The 2^512 input space is represented by the stated structural classes."),
  "C06": dict(
    engine="E-prod + E-fault (mc/src/c06.rs)", cat="fault_enumeration", ref="DESIGN.md §3 C06",
    technique="exhaustive product over seeds x message lengths x modes x APIs for signing (bytes == libsodium), and exhaustive single-fault enumeration for verification (every bit of message/signature/public key, complete S+kL family, complete small-order R x A table, non-canonical encodings, mode cross-over, truncations) with verdict equality against libsodium",
    text="8 seeds x every length 0..=130 (600 thorough) x 4 contents x pure/combined/pre-hashed x classic/object API; 24 base signatures x ~1.7k faults each; accept/reject must equal libsodium's strict verifier and be reject for every mutation.",
-   note="Trusted: libsodium 1.0.18 strict verification."),
+   note="Trusted: two references — libsodium 1.0.18 strict verification/signing in-process and a pure-Python RFC 8032 implementation (sign pure + pre-hashed, strict verify; ref/curve_check.py) over ~1.8k dumped cases."),
  "C07": dict(
    engine="E-prod (mc/src/c07.rs) + Python specification reference (ref/spec_check.py)", cat="exploration", ref="DESIGN.md §3 C07",
    technique="bounded exhaustive enumeration per primitive (all digest-length x key-length pairs x every input length; constructed Poly1305 operands hitting each carry/reduction boundary; all single-bit core inputs; every 1-/2-byte counter value) compared with two independent references: libsodium in-process and a Python re-computation of a dumped corpus",
@@ -54,7 +54,7 @@ CHECKS = {
    engine="E-prod parameter grids (mc/src/c09.rs)", cat="exploration", ref="DESIGN.md §3 C09",
    technique="bounded exhaustive enumeration of Argon2 parameter grids (every output length 16..=1100, every memory size 8..=129 KiB, passes 1..=6, password/salt lengths, both types, out-of-range rejects), each cell compared with libsodium's argon2_hash / crypto_pwhash",
    text="Per-dimension exhaustive grids G1-G4 around a common centre plus the G1xG2 sub-product; object API hash_with_salt/verify incl. every single-byte password mutation.",
-   note="Trusted: libsodium's Argon2 (raw argon2_hash symbol). Not a full cross-product of all dimensions (stated)."),
+   note="Trusted: two references — libsodium's Argon2 (raw argon2_hash symbol, crypto_pwhash) in-process and a pure-Python Argon2 written from RFC 9106 (ref/argon2_check.py) over the sub-grid m <= 48 KiB, t <= 3 (~1.6k cells). Not a full cross-product of all dimensions (stated)."),
  "C10": dict(
    engine="E-prod (mc/src/c10.rs)", cat="exploration", ref="DESIGN.md §3 C10",
    technique="bounded exhaustive enumeration of password-hash strings: full product passwords x costs in both directions (dryoc-made checked by an independent parser and libsodium's verifier; libsodium-made under dryoc), both algorithms x salt lengths x hash lengths for parse/re-encode, and the complete needs-rehash truth table",
